@@ -426,6 +426,9 @@ fn probe_counters(spec: &RunSpec, op: &Op, out: &Outcome, c: &mut Counters) {
             if q.xs.is_empty() {
                 c.add("path.empty_query", 1);
             }
+            if q.xs.len() >= 40 {
+                c.add("reach.long_batch", 1);
+            }
             if q.lay != Lay::C {
                 c.add("query.nonstandard_layout", 1);
             }
@@ -566,6 +569,15 @@ pub fn run_spec(spec: &RunSpec, prop: Prop, opts: &RunOpts) -> RunResult {
         }
         res.counters.add(&format!("slot.{}", cfg.label()), 1);
     }
+    // company: more interpolators of the same configurations, alive for the whole run
+    let mut ballast: Vec<Box<dyn Slot>> = vec![];
+    for k in 0..spec.ballast {
+        if let Ok(s) = build_slot(&spec.slots[k % spec.slots.len()]) {
+            ballast.push(s);
+        }
+    }
+    let _ = stub::take_build_log();
+    res.counters.add("reach.ballast_interpolators_alive", ballast.len() as u64);
     if prop == Prop::C17 {
         res.violations.retain(|v| v.property == "C17");
     }
@@ -727,5 +739,6 @@ pub fn run_spec(spec: &RunSpec, prop: Prop, opts: &RunOpts) -> RunResult {
         }
     }
     drop(shared);
+    drop(ballast);
     res
 }
